@@ -27,6 +27,15 @@ EVERY answer on the way with the same oracle / the same model:
     returned by earlier calls are still held (and must still be right).
 Replays of these cases carry the whole sequence ("steps" / "calls") and are
 re-executed by --replay.
+
+The tolerance 1e-8 is absolute and the property bounds coordinate DIFFERENCES from below,
+not coordinates: small polygons far from the origin (projected coordinates, offset / size
+up to 1e7), polygons as small as the quantifier allows and huge ones are inside it.  The
+"far" sections build polygons with steep / flat edges on a dyadic grid, put query points
+in the slivers beside those edges and ask in unit coordinates and after placements
+X = s*(x + u) that are exact in binary64: same exact even-odd answer, and the
+implementation's answer must not change (keys C15/invariance/translate-exact, scale-exact,
+translate-scale-exact; grid-translate / grid-scale for cells_inside_polygon).
 """
 import copy
 import ctypes
@@ -46,7 +55,11 @@ HEADER = ("From Coq Require Import ZArith List PrimFloat.\n"
 ATOL = 1e-8            # the property's absolute tolerance
 MIN_DIFF = 1e-6        # "coordinates differ by much more than 1e-8": 0 or >= 100 x atol
 FAR2 = 10 ** 12        # distance > 1e-6 x size  <=>  FAR2 * d^2 > size^2
-MAX_OFFSET = 1e6       # |coordinates| <= 1e6 x size (binary64 keeps 1e-10 x size there)
+MAX_OFFSET = 1e7       # |coordinates| <= 1e7 x size: one ulp there is 1.9e-9 x size, the abscissa of an
+                       # intersection is off by a few ulps, the judged points are >= 1e-6 x size away
+                       # (small catchments in UTM-like coordinates: unit polygon at northing 6.2e6)
+QV = 16                # sliver classes: vertices are multiples of 2^-QV in unit coordinates,
+QP = 24                # points multiples of 2^-QP, so that the placements below are exact in binary64
 
 
 # ----------------------------------------------------------------------------
@@ -584,6 +597,210 @@ def polygon_edit(rng, poly, pts):
 
 
 # ----------------------------------------------------------------------------
+# small polygons far from the origin, steep / flat edges, points beside them
+#
+# The tolerance of the kernel is ABSOLUTE (1e-8); the property's quantifier bounds the coordinate
+# differences from below, not the coordinates: a polygon of size 1 at (5e5, 6.2e6), with an edge
+# whose dx is 0.01 (steep, not vertical) or whose dy is 0.01 (flat, not horizontal), and a query
+# point in the sliver between that edge and the vertical / horizontal line through one of its
+# ends, is inside the quantifier.  Such polygons are built in "unit" coordinates on a dyadic
+# grid and then placed by X = s*(x + u) with s a power of two and u a multiple of the grid
+# step: the placement is EXACT in binary64, hence the exact even-odd answer and the relative
+# distance to the edges are those of the unit polygon, and the answer of the implementation
+# has to be the same in both places (translation / scaling invariance without any rounding).
+
+def _q(v, bits):
+    return round(v * (1 << bits)) / (1 << bits)
+
+
+def small_eps(rng, lo=2, hi=QV):
+    """+-dyadic number, log-uniform in [2^-hi, 2^-lo] (non-zero multiple of 2^-QV)"""
+    e = max(_q(2.0 ** -rng.uniform(lo, hi), QV), 2.0 ** -QV)
+    return e if rng.random() < 0.5 else -e
+
+
+def _family(rng, wanted):
+    while True:
+        fam, poly = base_polygon(rng)
+        if fam in wanted:
+            return fam, poly
+
+
+def sliver_polygon(rng):
+    """polygon in unit coordinates (about [0, 6]^2, multiples of 2^-QV) with edges that are
+    nearly - not exactly - vertical / horizontal: |dx| or |dy| between 2^-16 and 2^-2"""
+    fam = rng.choice(["nearortho", "nearortho", "shear", "steep", "steep", "needle", "jitter", "plain"])
+    if fam == "nearortho":      # rectilinear polygon, every vertex off its place by tiny amounts
+        _, poly = _family(rng, ("ortho",))
+        poly = [(x + rng.choice([0, 1, 1]) * small_eps(rng), y + rng.choice([0, 1, 1]) * small_eps(rng))
+                for x, y in poly]
+    elif fam == "shear":        # lattice polygon sheared: vertical edges become steep, horizontal ones flat
+        _, poly = _family(rng, ("lattice", "halfgrid", "collinear", "dup", "ortho"))
+        e1, e2 = rng.choice([(1, 0), (0, 1), (1, 1)])
+        e1, e2 = e1 * small_eps(rng, 4), e2 * small_eps(rng, 4)
+        poly = [(x + e1 * y, y + e2 * x) for x, y in poly]
+    elif fam == "steep":        # star / convex / random polygon, some edges made steep or flat
+        _, poly = _family(rng, ("star", "convex", "random"))
+        n = len(poly)
+        for _ in range(rng.randint(1, 3)):
+            i = rng.randrange(n)
+            a, b = poly[i], poly[(i + 1) % n]
+            poly[(i + 1) % n] = (a[0] + small_eps(rng), b[1]) if rng.random() < 0.5 else \
+                                (b[0], a[1] + small_eps(rng))
+    elif fam == "needle":       # the polygon itself is a sliver (thin triangle / quadrilateral)
+        L = rng.choice([1.0, 2.0, 5.0, rng.uniform(0.5, 6)])
+        e = [abs(small_eps(rng)) for _ in range(4)]
+        poly = [(0.0, 0.0), (L, e[0]), (L + rng.choice([0, 1, -1]) * e[1], e[0] + e[2])]
+        if rng.random() < 0.5:
+            poly.append((rng.choice([0, 1, -1]) * e[3], e[2] * rng.choice([0.5, 1.0, 2.0])))
+        if rng.random() < 0.5:
+            poly = [(y, x) for x, y in poly]
+        if rng.random() < 0.5:
+            poly.reverse()
+        ox, oy = rng.randint(0, 3), rng.randint(0, 3)
+        poly = [(x + ox, y + oy) for x, y in poly]
+    elif fam == "jitter":       # lattice polygon with every vertex jittered independently
+        _, poly = _family(rng, ("lattice", "halfgrid", "dup"))
+        poly = [(x + small_eps(rng, 5), y + small_eps(rng, 5)) for x, y in poly]
+    else:                       # whatever slope the family gives (moderately steep edges)
+        _, poly = _family(rng, ("star", "random", "convex"))
+    return fam, [(_q(x, QV), _q(y, QV)) for x, y in poly]
+
+
+def sliver_points(rng, poly, npts):
+    """query points beside the steep / flat edges: in the bounding box of an edge (the sliver on
+    either side of it), level with / above / below a point of the edge at a distance of the order
+    of its |dx| / |dy|, in its y-band / x-band across the extent; multiples of 2^-QP"""
+    n = len(poly)
+    xs = [p[0] for p in poly]
+    ys = [p[1] for p in poly]
+    x0, x1, y0, y1 = min(xs), max(xs), min(ys), max(ys)
+    w, h = (x1 - x0) or 1.0, (y1 - y0) or 1.0
+    edges = [(poly[i], poly[(i + 1) % n]) for i in range(n) if poly[i] != poly[(i + 1) % n]]
+    if not edges:
+        return [(_q(x, QP), _q(y, QP)) for x, y in base_points(rng, poly, npts)]
+    thin = [(a, b) for a, b in edges
+            if 0 < abs(a[0] - b[0]) <= 0.3 or 0 < abs(a[1] - b[1]) <= 0.3] or edges
+    mult = [0.3, 0.5, 1, 1, 2, 5, 20]
+    pts = []
+    for _ in range(npts):
+        a, b = rng.choice(thin if rng.random() < 0.8 else edges)
+        dx, dy = b[0] - a[0], b[1] - a[1]
+        r = rng.random()
+        if r < 0.35:
+            p = (a[0] + rng.random() * dx, a[1] + rng.random() * dy)
+        elif r < 0.57:
+            t = rng.random()
+            d = rng.choice([abs(dx), abs(dx), abs(dy), w / 8]) * rng.choice(mult) * rng.choice([-1, 1])
+            p = (a[0] + t * dx + d, a[1] + t * dy)
+        elif r < 0.79:
+            t = rng.random()
+            d = rng.choice([abs(dy), abs(dy), abs(dx), h / 8]) * rng.choice(mult) * rng.choice([-1, 1])
+            p = (a[0] + t * dx, a[1] + t * dy + d)
+        elif r < 0.9:
+            if rng.random() < 0.5:
+                p = (rng.uniform(x0 - 0.2 * w, x1 + 0.2 * w), a[1] + rng.random() * dy)
+            else:
+                p = (a[0] + rng.random() * dx, rng.uniform(y0 - 0.2 * h, y1 + 0.2 * h))
+        else:
+            p = base_points(rng, poly, 1)[0]
+        pts.append((_q(p[0], QP), _q(p[1], QP)))
+    return pts
+
+
+UTM_LIKE = [(5.0e5, 6.2e6), (-3.1e6, 7.4e6), (2.5e5, -3.9e6), (8.3e5, 1.2e5), (1.66e5, 9.99e6),
+            (7.5e5, 0.5), (-1.2345e6, -2.5e6), (4.0e6, 4.0e6)]
+
+
+def placement(rng, poly):
+    """-> (kind, s, ux, uy): X = s*(x + ux), Y = s*(y + uy); s a power of two, ux, uy multiples
+    of 1/8.  Offsets up to 1e7 x polygon size (the check's bound for binary64), sizes from the
+    smallest the quantifier allows (coordinate differences >= 1e-6) to 2^24"""
+    xs = [p[0] for p in poly]
+    ys = [p[1] for p in poly]
+    size = math.hypot(max(xs) - min(xs), max(ys) - min(ys))
+    diffs = [abs(poly[i][k] - poly[(i + 1) % len(poly)][k]) for i in range(len(poly)) for k in (0, 1)]
+    mind = min([d for d in diffs if d > 0] or [1.0])
+    kind = rng.choice(["far", "far", "far", "far", "utm", "utm", "oneaxis", "tiny", "huge", "limit"])
+    frac = rng.choice([0.0, 0.0, 0.5, 0.25, 0.125])
+
+    def off(r):
+        return float(rng.choice([-1, 1]) * round(r * size)) + frac
+
+    if kind == "tiny":          # as small as the quantifier allows (differences just above 1e-6), near the origin
+        kmax = max(0, int(math.floor(math.log2(mind / MIN_DIFF))))
+        s = 2.0 ** -rng.choice([kmax, kmax, max(0, kmax - 1), rng.randint(0, kmax)])
+        ux, uy = rng.choice([(0.0, 0.0), (0.0, 0.0), (-3.0, 2.0), (float(rng.randint(-50, 50)), 7.0)])
+        return kind, s, ux, uy
+    if kind == "huge":
+        s = 2.0 ** rng.randint(11, 24)
+        if rng.random() < 0.5:
+            return kind, s, 0.0, 0.0
+        r = 10 ** rng.uniform(1, 6.9)
+        return kind, s, off(r), off(r * rng.random())
+    if kind == "utm":           # metres: the polygon is 1 .. 8 units wide times s
+        s = 2.0 ** rng.choice([0, 0, 0, -1, 1, 3, 5])
+        ox, oy = rng.choice(UTM_LIKE)
+        if rng.random() < 0.3:
+            ox, oy = oy, ox
+        return kind, s, ox / s, oy / s
+    if kind == "limit":         # the largest offset the check allows for this polygon
+        r = 0.97e7
+        s = 2.0 ** rng.randint(-2, 10)
+        a, b = rng.choice([(1, 1), (1, 0), (0, 1), (1, -1)])
+        return kind, s, a * off(r) if a else 0.0, b * off(r) if b else 0.0
+    s = 2.0 ** rng.randint(-2, 10)
+    r = 10 ** rng.uniform(2, 6.95)
+    if kind == "oneaxis":
+        small = float(rng.randint(-20, 20))
+        return (kind, s, off(r), small) if rng.random() < 0.5 else (kind, s, small, off(r))
+    big, other = off(r), off(r * rng.choice([1.0, rng.random()]))
+    return (kind, s, big, other) if rng.random() < 0.5 else (kind, s, other, big)
+
+
+def place_exact(s, ux, uy, seq):
+    """-> (placed sequence, exact?)  exact: no operation rounded (verified in rationals)"""
+    out, exact = [], True
+    fs, fx, fy = Fr(s), Fr(ux), Fr(uy)
+    for x, y in seq:
+        X, Y = s * (x + ux), s * (y + uy)
+        if not (math.isfinite(X) and math.isfinite(Y)) or Fr(X) != fs * (Fr(x) + fx) or Fr(Y) != fs * (Fr(y) + fy):
+            exact = False
+        out.append((X, Y))
+    return out, exact
+
+
+def sliver_cell_polygon(rng, nrows, ncols):
+    """polygon in CELL units whose vertices sit near the lines through the cell centres
+    (k + 1/2 +- eps) or the cell borders: steep / flat edges passing beside cell centres"""
+    def coord(m):
+        return rng.randint(-1, m) + rng.choice([0.5, 0.5, 0.5, 0.0]) + rng.choice([0, 1, 1, 1]) * small_eps(rng)
+    n = rng.choice([3, 4, 4, 5, 6, 8])
+    if rng.random() < 0.5:      # nearly rectilinear
+        k = max(2, n // 2)
+        x, y = coord(ncols), coord(nrows)
+        poly = []
+        for _ in range(k):
+            poly.append((x + rng.choice([0, 1]) * small_eps(rng), y + rng.choice([0, 1]) * small_eps(rng)))
+            x = coord(ncols)
+            poly.append((x + rng.choice([0, 1]) * small_eps(rng), y + rng.choice([0, 1]) * small_eps(rng)))
+            y = coord(nrows)
+        fam = "cell-nearortho"
+    else:
+        poly = [(coord(ncols), coord(nrows)) for _ in range(n)]
+        fam = "cell-free"
+    return fam, [(_q(u, QV), _q(v, QV)) for u, v in poly]
+
+
+def far_corner(rng, csz, ncells):
+    """lower-left corner up to ~1e7 x (grid extent) away, a whole number of cells or UTM-like"""
+    if rng.random() < 0.3:
+        return None
+    r = 10 ** rng.uniform(2, 6.5)
+    return csz * float(rng.choice([-1, 1]) * round(r * max(1, ncells)))
+
+
+# ----------------------------------------------------------------------------
 # Coq terms
 
 def cpt(p):
@@ -649,7 +866,16 @@ def run(ctx):
                 "returned table, new polygon, same polygon ndarray rewritten in place; a query after every "
                 "step, the polygon following the grid or staying where it was); sequences of 3..5 calls of "
                 "points_inside_polygon on the caller's arrays (points / polygon arrays rewritten in place, "
-                "answer vector handed back, vectors returned earlier still held). non-trivial = distinct "
+                "answer vector handed back, vectors returned earlier still held); small / tiny / huge polygons with "
+                "steep and flat (nearly vertical / horizontal, |dx| or |dy| = 2^-16..2^-2 units) edges - "
+                "near-rectilinear, sheared lattice, star with steepened edges, needles, jittered lattice - on a "
+                "dyadic grid, query points in the slivers beside those edges, each asked in unit coordinates "
+                "and in 2 placements X = s*(x+u) exact in binary64 (s = 2^-14..2^24, offsets up to 1e7 x "
+                "polygon size, UTM-like eastings / northings, one axis only, the largest offset allowed), "
+                "also with rotated / reversed / closed vertex lists and through the bare kernel (170 base "
+                "cases, thorough 1800); grids moved in place / copied / rebuilt up to 1e6.5 cells away or at "
+                "UTM-like corners with polygons whose vertices sit beside the lines through the cell centres "
+                "(70 sequences, thorough 500). non-trivial = distinct "
                 "(kind, family, variant, features, answer classes) signature")
     ctx.trusted = cm.STD_TRUST + [
         "numpy min/max of a column (NaN-propagating) is modelled, validated by correspondence",
@@ -1176,6 +1402,178 @@ def run(ctx):
 
     ctx.notes["history_sections_python_s"] = round(time.time() - t_hist, 2)
     ctx.notes["history_sections_first_case"] = n_before_hist
+
+    # ---- small polygons far from the origin (offset / size up to 1e7, UTM-like coordinates), tiny and
+    # huge ones, with steep / flat edges and query points beside them.  The placement of the unit
+    # polygon is exact in binary64, so (a) the exact even-odd answer is that of the unit polygon
+    # (re-derived from scratch for every 4th placement: the oracle checks itself) and (b) the
+    # implementation must give the same answer in both places: translation / scaling invariance as
+    # the property states it, with no rounding to excuse a difference
+    t_far = time.time()
+    n_before_far = len(terms)
+    stats.update({"far_placements": 0, "far_exact": 0, "far_points_judged": 0, "far_invariance_pairs": 0,
+                  "far_cells_judged": 0})
+
+    def far_pair(fam, upoly, upts, placements, sig0):
+        ucase = {"pts": upts, "poly": upoly, "atol": None, "inside_len": None}
+        cm.mark({"call": "gutils.points_inside_polygon", "case": ucase})
+        uout = run_inside(ucase)
+        hor, ver, dup = poly_features(upoly)
+        uidx = add(term_inside(ucase, uout),
+                   {"call": "gutils.points_inside_polygon", "family": "sliver-" + fam, "case": ucase, "impl": uout},
+                   sig0 + ("unit", fam, min(len(upoly), 8), hor, ver, dup,
+                           None if uout is None else (0 in uout, 1 in uout)))
+        uexp = judge_points(uidx, ucase, uout)
+        for pl in placements:
+            kind, sc, ux, uy = pl["kind"], pl["s"], pl["ux"], pl["uy"]
+            poly, e1 = place_exact(sc, ux, uy, upoly)
+            pts, e2 = place_exact(sc, ux, uy, upts)
+            exact = e1 and e2
+            vkind = pl.get("list")
+            if vkind:           # the vertex list of the placed polygon rotated / reversed / closed
+                poly, _, _ = make_variant(rng, vkind, poly, pts)
+            case = {"pts": pts, "poly": poly, "atol": pl.get("atol"), "inside_len": pl.get("inside_len")}
+            cm.mark({"call": "gutils.points_inside_polygon", "case": case})
+            out = run_inside(case)
+            stats["far_placements"] += 1
+            stats["far_exact"] += exact
+            rep = {"call": "gutils.points_inside_polygon on a polygon given in unit coordinates (base_polygon, "
+                           "base_points) and placed by X = s*(x + ux), Y = s*(y + uy)" +
+                           (" - exact in binary64" if exact else ""),
+                   "family": "sliver-" + fam, "placement": dict(pl, exact=exact), "base_polygon": upoly,
+                   "base_points": upts, "base_impl": uout, "case": case, "impl": out}
+            idx = add(term_inside(case, out), rep,
+                      sig0 + ("placed", kind, fam, vkind, exact, None if out is None else (0 in out, 1 in out)))
+            recheck = (not exact) or uexp is None or stats["far_placements"] % 4 == 0
+            before = stats["oracle_points"]
+            exp = judge_points(idx, case, out, expected=None if recheck else uexp)
+            stats["far_points_judged"] += stats["oracle_points"] - before
+            if exact and recheck and uexp is not None and exp is not None and exp != uexp:
+                raise RuntimeError(f"oracle not invariant under an exact placement: {rep}")
+            if pl.get("kernel") and in_quantifier(poly):
+                xs = [q[0] for q in poly]
+                ys = [q[1] for q in poly]
+                kcase = {"pts": pts, "poly": poly, "atol": ATOL, "xlim": (min(xs), max(xs)),
+                         "ylim": (min(ys), max(ys)), "init": [0] * len(pts)}
+                kout = run_kernel(kcase)
+                kidx = add(term_kernel(kcase, kout), {"call": "c_inside (ctypes)", "case": kcase, "impl": kout},
+                           sig0 + ("kernel", kind, fam))
+                api = run_inside({"pts": pts, "poly": poly})
+                if api != kout:
+                    fail(kidx, "C15/points_inside_polygon/wrapper-differs-from-kernel",
+                         f"public function returns {api}, the kernel on the same data {kout}")
+            if exp is None or uexp is None or out is None or uout is None:
+                continue
+            ikey = ("translate-scale" if not exact else "translate-exact" if sc == 1.0 else
+                    "scale-exact" if ux == 0.0 and uy == 0.0 else "translate-scale-exact")
+            for i in range(len(pts)):
+                if exp[i] is None or uexp[i] is None or exp[i] != uexp[i]:
+                    continue
+                stats["invariance_pairs"] += 1
+                stats["far_invariance_pairs"] += 1
+                if out[i] != uout[i]:
+                    fail(idx, f"C15/invariance/{ikey}",
+                         f"point {upts[i]!r} of the polygon {upoly!r}: answer {uout[i]}; after placing polygon "
+                         f"and points by X = {sc!r}*(x + {ux!r}), Y = {sc!r}*(y + {uy!r})"
+                         f"{' (exact in binary64)' if exact else ''}, point {pts[i]!r}: answer {out[i]} "
+                         f"(even-odd rule {exp[i]})")
+
+    if getattr(ctx, "replay", None):
+        rp = ctx.replay.get("replay", ctx.replay)
+        rp = rp.get("first_mismatch", rp)
+        if isinstance(rp.get("placement"), dict) and "base_polygon" in rp:
+            far_pair(str(rp.get("family", "?")).replace("sliver-", ""),
+                     [tuple(q) for q in rp["base_polygon"]], [tuple(q) for q in rp["base_points"]],
+                     [{k: v for k, v in rp["placement"].items() if k != "exact"}], ("far-replay",))
+
+    nfar = ctx.scale(170, 1800)
+    for _f in range(nfar):
+        fam, upoly = sliver_polygon(rng)
+        upts = sliver_points(rng, upoly, rng.randint(18, ctx.scale(30, 50)))
+        pls = []
+        for _p in range(2):
+            kind, sc, ux, uy = placement(rng, upoly)
+            pls.append({"kind": kind, "s": sc, "ux": ux, "uy": uy, "atol": rng.choice([None, None, ATOL]),
+                        "inside_len": rng.choice([None, None, len(upts)]),
+                        "list": rng.choice([None, None, "rotate", "reverse", "close", "mixed"]),
+                        "kernel": rng.random() < 0.12})
+        far_pair(fam, upoly, upts, pls, ("far",))
+
+    # ---- the same for cells_inside_polygon: a grid far from the origin (a whole number of cells, or
+    # UTM-like corners), polygon vertices beside the lines through the cell centres; the grid is first
+    # asked where it was built (near the origin), then moved in place / rebuilt far away and asked
+    # about the polygon that follows it (keys C15/invariance/grid-translate, grid-scale)
+    nfarcell = ctx.scale(70, 500)
+    for _g in range(nfarcell):
+        nrows = rng.choice([1, 2, 3, rng.randint(1, ctx.scale(10, 24))])
+        ncols = rng.choice([1, 2, 3, rng.randint(1, ctx.scale(10, 24))])
+        csz = rng.choice([1.0, 1.0, 0.5, 0.25, 2.0, 32.0, 1024.0, 30.0, 90.0, 25.0, 1000.0, 0.1])
+        geom0 = {"nrows": nrows, "ncols": ncols, "xll": csz * rng.choice([0, 0, -3, 7]),
+                 "yll": csz * rng.choice([0, 0, 2, -5]), "csz": csz}
+        fam, cpoly = sliver_cell_polygon(rng, nrows, ncols)
+        life = GridLife()
+        life.do({"op": "new", "how": rng.choice(["init", "init", "from_dict"]), "geom": geom0})
+        results = []
+
+        def ask_far(k, tag):
+            g = life.geom[k]
+            step = {"op": "query", "obj": k, "poly": place(g, cpoly), "atol": ATOL, "inplace": rng.random() < 0.5}
+            cm.mark({"call": "Grid life cycle", "steps": life.steps + [step]})
+            before = stats["cells_judged"]
+            idx, res = life_query(life, step, ("farcells", tag, fam, min(nrows, 3), min(ncols, 3),
+                                               g["csz"] == geom0["csz"]))
+            stats["far_cells_judged"] += stats["cells_judged"] - before
+            results.append((idx, dict(g), res))
+
+        ask_far(0, "home")
+        ncell = max(nrows, ncols)
+        if rng.random() < 0.3:
+            ox, oy = rng.choice(UTM_LIKE)
+            xll, yll = (ox, oy) if rng.random() < 0.7 else (oy, ox)
+        else:
+            xll, yll = far_corner(rng, csz, ncell), far_corner(rng, csz, ncell)
+            if xll is None and yll is None:
+                xll = far_corner(rng, csz, ncell) or 1e5 * csz
+        how = rng.choice(["set", "set", "new", "copy-set"])
+        tgt = 0
+        newcsz = csz * rng.choice([1, 1, 1, 2, 0.5, 8]) if how != "new" or rng.random() < 0.5 else csz
+        if how == "new":
+            g2 = dict(geom0, csz=newcsz)
+            g2["xll"] = geom0["xll"] if xll is None else xll
+            g2["yll"] = geom0["yll"] if yll is None else yll
+            tgt = life.do({"op": "new", "how": rng.choice(["init", "from_dict"]), "geom": g2})
+        else:
+            if how == "copy-set":
+                tgt = life.do({"op": "copy", "obj": 0, "how": rng.choice(["clone", "deepcopy", "pickle", "dict"])})
+                if tgt is None:
+                    continue
+            st = {"op": "set", "obj": tgt, "np": rng.random() < 0.3}
+            if xll is not None:
+                st["xll"] = xll
+            if yll is not None:
+                st["yll"] = yll
+            if newcsz != csz:
+                st["csz"] = newcsz
+            life.do(st)
+        ask_far(tgt, how)
+        if how == "copy-set":
+            ask_far(0, "source")     # the source of the copy stays where it was
+        (i0, g0, r0), (i1, g1, r1) = results[0], results[1]
+        if r0 is not None and r1 is not None:
+            kind = "grid-translate" if g0["csz"] == g1["csz"] else "grid-scale"
+            for c, w in r1[0].items():
+                if r0[0].get(c) != w:
+                    continue
+                stats["invariance_pairs"] += 1
+                stats["far_invariance_pairs"] += 1
+                if (c in r1[1]) != (c in r0[1]):
+                    fail(i1, f"C15/invariance/{kind}",
+                         f"cell {c} {'returned' if c in r0[1] else 'not returned'} for the grid {g0!r}, "
+                         f"{'returned' if c in r1[1] else 'not returned'} after moving/rescaling grid and "
+                         f"polygon together to {g1!r}; polygon in cell units from the lower-left corner {cpoly!r}")
+
+    ctx.notes["far_sections_python_s"] = round(time.time() - t_far, 2)
+    ctx.notes["far_sections_first_case"] = n_before_far
 
     # ---- correspondence inside Coq
     bad, nshards, failed = cm.run_case_files(PID, HEADER, "pcase", "p_ok", terms, shard=150,
